@@ -133,7 +133,7 @@ def run_unit(spec_name, seed=None, rlimit=None, extra_args=(), keep_name=None, t
         for sp in spans:
             o = sp["origin"]
             # most specific attribution: a trailing `// [TAG,TAG]` on the very line that failed
-            if sp["line"] and o[0] in ("hint", "speclib"):
+            if sp["line"] and o[0] in ("hint", "speclib", "raw"):
                 mm = re.search(r"//\s*\[([A-Za-z0-9_,\. ]+)\]\s*$", out.lines[sp["line"] - 1])
                 if mm and sp.get("primary"):
                     f.line_tags += [x.strip() for x in mm.group(1).split(",") if x.strip()]
@@ -145,6 +145,8 @@ def run_unit(spec_name, seed=None, rlimit=None, extra_args=(), keep_name=None, t
                 f.hint_tags += list(o[5])
             elif o[0] == "repo":
                 f.repo_sites.append("src/%s:%d" % (o[1], o[2]))
+            elif o[0] == "raw":
+                f.clause_ids.append("client@%s:%s" % (o[1], o[2]))
             elif o[0] == "speclib":
                 f.clause_ids.append("speclib/%s:%d" % (o[1], o[2]))
                 # a requires-clause of a speclib lemma may carry its own attribution: `// [TAG,TAG]`
